@@ -288,6 +288,21 @@ ACT_DEFECTS = (
      ('VALIDATION_ERROR',), None),
     ('act-undefined-symbol-arg-added-at-program-symbol-reference', ['@ PGM @[UNDEFINED_SYM]@'], ('VALIDATION_ERROR',), None),
     ('act-missing-home-file-arg-of-program', ['% echo -existing-file -rel-home missing.txt'], ('VALIDATION_ERROR',), None),
+    # the other actors (round 5: C08-r5m2 dropped the references of the arguments after the file name of the file actor)
+    ('act-file-actor-undefined-symbol-in-argument', ['existing.txt @[UNDEFINED_SYM]@'], ('VALIDATION_ERROR',), 'conf:actor = file % sh'),
+    ('act-file-actor-undefined-symbol-in-file-name', ['@[UNDEFINED_SYM]@ arg'], ('VALIDATION_ERROR',), 'conf:actor = file % sh'),
+    ('act-file-actor-symbol-defined-in-later-ba-phase-in-argument', ['existing.txt @[LATER_BA]@'], ('VALIDATION_ERROR',),
+     'conf:actor = file % sh'),
+    ('act-file-actor-wrong-symbol-type-in-argument', ['existing.txt @[LM]@'], ('VALIDATION_ERROR',), 'conf:actor = file % sh'),
+    ('act-file-actor-missing-file', ['missing.src arg'], ('VALIDATION_ERROR',), 'conf:actor = file % sh'),
+    ('act-file-actor-two-lines', ['existing.txt', 'second line'], ('SYNTAX_ERROR',), 'conf:actor = file % sh'),
+    ('act-source-actor-undefined-symbol-in-source', ['echo @[UNDEFINED_SYM]@'], ('VALIDATION_ERROR',), 'conf:actor = source % sh'),
+    ('act-source-actor-undefined-symbol-in-interpreter-argument', ['echo x'], ('VALIDATION_ERROR',),
+     'conf:actor = source % sh @[UNDEFINED_SYM]@'),
+    ('act-file-actor-undefined-symbol-in-interpreter-argument', ['existing.txt'], ('VALIDATION_ERROR',),
+     'conf:actor = file % sh @[UNDEFINED_SYM]@'),
+    ('act-undefined-symbol-in-stdin-of-program', ['% cat', '  -stdin @[UNDEFINED_SYM]@'], ('VALIDATION_ERROR',), None),
+    ('act-undefined-transformer-of-program', ['% cat', '  -transformed-by UNDEFINED_TRANSFORMER'], ('VALIDATION_ERROR',), None),
 )
 
 
@@ -301,6 +316,10 @@ def case_text(defect, phase: str, pos: int) -> str:
         base_len = len(BASE[phase])
         at = (len(PRELUDE) if phase == 'setup' else 0) + (0 if pos == 0 else base_len if pos == 2 else 1)
         secs[phase].insert(at, line)
+    if isinstance(extra, str) and extra.startswith('conf:'):
+        secs['conf'].append(extra[len('conf:'):])
+        if 'later-ba' in name:
+            secs['before-assert'].append("def string LATER_BA = 'v'")
     if extra == 'later':
         secs['cleanup'].append("def string LATER = 'v'")
     if extra == 'later-ba':
